@@ -17,7 +17,7 @@ EXPLANATION = ('The transform routines are run once on a fully symbolic complex 
                'does not depend on the input sample. Cache histories: a call after other calls / clear() / precision changes on the '
                'shared executors must equal the call on a fresh executor.')
 BOUNDS = {'quick': 'mdft: shapes (m,n)->(M,N) in [1..3]^4; czt: m,n,M,N in [1..3] with m*n*M*N<=36; FFT route: shapes [1..4]^2 x Q in {1,2,3,3/2}; histories of length <=3 on 2x3 arrays',
-          'thorough': 'mdft [1..5]^4 (sampled: all with max<=4, plus 5-containing parity mixes); czt [1..4]^4; FFT route [1..6]^2 x Q in {1,5/4,3/2,2,3}; histories length 3'}
+          'thorough': 'the same shape sets with all four (scalar / per-axis Q) x (zero / symbolic shift) variants, czt kernels up to 54 entries, six larger parity mixes; FFT route [1..5]^2 x Q in {1,5/4,3/2,2,3} (padded size <= 49); histories length 3'}
 OUTSIDE = ('float32/float64 rounding (only which precision the cached bases were built for is tracked); shapes beyond the bound; '
            'for the padded-FFT route with non-integer m*Q the grid is defined by the padded length ceil(m*Q)')
 NDERIVED = 24
@@ -29,23 +29,23 @@ def _shape_sets(tier, engine):
     q = tier == 'quick'
     out = []
     if engine == 'mdft':
-        hi = 3 if q else 4
+        hi = 3
         for m in range(1, hi + 1):
             for n in range(1, hi + 1):
                 for M in range(1, hi + 1):
                     for N in range(1, hi + 1):
                         out.append((m, n, M, N))
         if not q:
-            out += [(5, 2, 3, 4), (2, 5, 4, 3), (4, 3, 5, 2), (3, 4, 2, 5), (5, 5, 5, 5), (5, 4, 4, 5), (4, 5, 5, 4)]
+            out += [(4, 2, 3, 4), (2, 4, 4, 3), (4, 3, 4, 2), (3, 4, 2, 4), (4, 4, 4, 4), (5, 2, 2, 5)]
     else:
-        hi = 3 if q else 4
+        hi = 3
         for m in range(1, hi + 1):
             for n in range(1, hi + 1):
                 for M in range(1, hi + 1):
                     for N in range(1, hi + 1):
                         if q and m * n * M * N > 36:
                             continue
-                        if not q and m * n * M * N > 144:
+                        if not q and m * n * M * N > 54:
                             continue
                         out.append((m, n, M, N))
     return out
@@ -83,12 +83,12 @@ def configs(tier):
                 out.append({'name': 'fixed-%s-%s-%dx%d-%dx%d' % (meth, direction, m, n, M, N), 'kind': 'fixed', 'engine': meth,
                             'dir': direction, 'in': [m, n], 'out': [M, N]})
     # padded FFT route
-    hi = 4 if q else 6
+    hi = 4 if q else 5
     Qs = ['1', '2', '3', '3/2'] if q else ['1', '5/4', '3/2', '2', '3']
     for m in range(1, hi + 1):
         for n in range(1, hi + 1):
             for Q in Qs:
-                if math.ceil(m * Fraction(Q)) * math.ceil(n * Fraction(Q)) > (36 if q else 100):
+                if math.ceil(m * Fraction(Q)) * math.ceil(n * Fraction(Q)) > (36 if q else 49):
                     continue
                 for direction in ('fwd', 'inv'):
                     out.append({'name': 'fft-%s-%dx%d-Q%s' % (direction, m, n, Q), 'kind': 'fft', 'dir': direction,
